@@ -49,7 +49,8 @@ impl<'a> PrettyPrinter<'a> {
 
         let mut doc = self.arena.nil();
         let has_parenthesized_args = has_parenthesized_args(args);
-        if table::is_table(func_call) {
+        // The table layouts always break lines. Do not use them where breaks are suppressed.
+        if table::is_table(func_call) && !ctx.break_suppressed {
             if let Some(cols) = table::is_formatable_table(func_call) {
                 doc += self.convert_table(ctx, func_call, cols);
             } else if has_parenthesized_args {
